@@ -44,7 +44,7 @@ def cases(tier, seed):
         d = bool(rs.rand() < .5)
         recs.append((['er', n, float(rs.choice([.1, .2, .3, .5])), d, int(rs.randint(1 << 30))], d))
     for i, (g, d) in enumerate(recs):
-        out.append({'kind': 'sp', 'g': g, 'directed': d, 'ws': seed * 100 + i, 'schemes': ['bin', 'int', 'dyad', 'real', 'logu']})
+        out.append({'kind': 'sp', 'g': g, 'directed': d, 'ws': seed * 100 + i, 'schemes': ['bin', 'int', 'dyad', 'real', 'logu', 'const']})
     # equal-length alternatives are where hops and Pmat can drift apart: many dense graphs with tied lengths
     for t in range(4000 if thorough else 800):
         n = int(rs.randint(5, 13))
@@ -73,6 +73,8 @@ def run_sp(case, bct, REC):
             trs = [None, 'inv']
         if sc == 'logu':
             trs = [None]
+        if 'log' in trs and L.max() > 1:   # the log transform is documented for weights in (0,1]
+            trs = [t for t in trs if t != 'log']
         for tr in trs:
             REC.tag(PROP, 'exec')
             with np.errstate(all='ignore'):
